@@ -78,6 +78,39 @@ func rowOf(lat float64, h int64) float64 {
 //   - a positive radius needs hZoom >= 2; at hZoom 2..5 at most half the width of the pole-ward edge of the end points' rows, at
 //     hZoom >= 6 at most three cell widths (width taken at the end point farther from the equator);
 //   - the line spans at most 120 cells on each axis and (line cells) x (stencil) stays below maxShifts.
+//
+// estimates: the size figures the caps of the bounded quantifier are applied to (also handed to the dispatch entry through the oracle
+// "dom", which applies the same caps itself): span of the line in cells on its longest axis, the radius in limiting cell widths
+// (hZoom >= 6: width at the end point farther from the equator; hZoom 2..5: width of the pole-ward edge of the end points' rows — the
+// columns converge towards the poles), and (line cells) x (stencil)
+func estimates(lon1, lat1, alt1, lon2, lat2, alt2 float64, h, v int64, radius float64) (span, rcells, shifts float64) {
+	dx := math.Abs(lon2-lon1) / cellLon(h)
+	dy := math.Abs(rowOf(lat2, h) - rowOf(lat1, h))
+	df := math.Abs(alt2-alt1) / cellAlt(v)
+	span = math.Max(dx, math.Max(dy, df))
+	if !(radius > 0) || math.IsInf(radius, 0) {
+		return span, 0, 0
+	}
+	wlim := cellWidthM(h, math.Max(math.Abs(lat1), math.Abs(lat2)))
+	if h < 6 {
+		edge := 0.0
+		for _, lat := range []float64{lat1, lat2} {
+			_, _, nth, sth := footprint(h, 0, int64(rowOf(lat, h)))
+			edge = math.Max(edge, math.Max(math.Abs(nth), math.Abs(sth)))
+		}
+		wlim = cellWidthM(h, math.Min(edge, 85.06))
+	}
+	rcells = radius / wlim
+	layers := math.Ceil(rcells) + 1
+	shifts = (dx + dy + df + 3) * (2*layers + 1) * (2*layers + 1) * (2*layers + 1)
+	return
+}
+
+func pointFields(p w.Val) (lon, lat, alt float64) {
+	l := w.AsList(p)
+	return w.AsFlt(l[0]), w.AsFlt(l[1]), w.AsFlt(l[2])
+}
+
 func inDomain(p1, p2 w.Val, h, v int64, radius float64) bool {
 	if !pointShape(p1) || !pointShape(p2) {
 		return false
@@ -85,9 +118,8 @@ func inDomain(p1, p2 w.Val, h, v int64, radius float64) bool {
 	if isNil(p1) || isNil(p2) || h < 0 || h > 35 || v < 0 || v > 35 {
 		return true
 	}
-	a, b := w.AsList(p1), w.AsList(p2)
-	lon1, lat1, alt1 := w.AsFlt(a[0]), w.AsFlt(a[1]), w.AsFlt(a[2])
-	lon2, lat2, alt2 := w.AsFlt(b[0]), w.AsFlt(b[1]), w.AsFlt(b[2])
+	lon1, lat1, alt1 := pointFields(p1)
+	lon2, lat2, alt2 := pointFields(p2)
 	for _, f := range []float64{lon1, lat1, alt1, lon2, lat2, alt2} {
 		if math.IsNaN(f) || math.IsInf(f, 0) {
 			return false
@@ -95,12 +127,10 @@ func inDomain(p1, p2 w.Val, h, v int64, radius float64) bool {
 	}
 	if math.Abs(lon1) > 180 || math.Abs(lon2) > 180 || math.Abs(lat1) > LatMax || math.Abs(lat2) > LatMax ||
 		math.Abs(alt1) > altLimit || math.Abs(alt2) > altLimit {
-		return false
+		return false // dispatch: bad_case (outside the documented ranges; |alt| <= 2^25 keeps the vertical index far from int64 wrap)
 	}
-	dx := math.Abs(lon2-lon1) / cellLon(h)
-	dy := math.Abs(rowOf(lat2, h) - rowOf(lat1, h))
-	df := math.Abs(alt2-alt1) / cellAlt(v)
-	if !(dx <= 120 && dy <= 120 && df <= 120) {
+	span, rcells, shifts := estimates(lon1, lat1, alt1, lon2, lat2, alt2, h, v, radius)
+	if !(span <= 120) {
 		return false
 	}
 	if !(radius > 0) { // zero, negative, NaN
@@ -109,23 +139,10 @@ func inDomain(p1, p2 w.Val, h, v int64, radius float64) bool {
 	if math.IsInf(radius, 0) || h < 2 {
 		return false
 	}
-	wmin := cellWidthM(h, math.Max(math.Abs(lat1), math.Abs(lat2)))
 	if h < 6 {
-		// coarse grids: rows are tall, and towards the poles the columns converge, so what bounds the reachable distance is the width
-		// of the fitted voxel's pole-ward edge; take the rows of both end points
-		edge := 0.0
-		for _, lat := range []float64{lat1, lat2} {
-			_, _, nth, sth := footprint(h, 0, int64(rowOf(lat, h)))
-			edge = math.Max(edge, math.Max(math.Abs(nth), math.Abs(sth)))
-		}
-		return radius <= 0.5*cellWidthM(h, math.Min(edge, 85.06))
+		return rcells <= 0.5 && shifts <= maxShifts
 	}
-	if radius > 3*wmin {
-		return false
-	}
-	layers := math.Ceil(radius/wmin) + 1
-	st := (2*layers + 1) * (2*layers + 1) * (2*layers + 1)
-	return (dx+dy+df+3)*st <= maxShifts
+	return rcells <= 3 && shifts <= maxShifts
 }
 
 func callCorridor(a []w.Val) w.Val {
@@ -178,11 +195,11 @@ func fitInDomain(id string, c float64) bool {
 	if math.IsInf(c, 0) || h < 2 {
 		return false
 	}
-	wm := ownWidth(h, x, y)
+	rcells := c / ownWidth(h, x, y)
 	if h < 6 {
-		return c <= 0.5*wm
+		return rcells <= 0.5
 	}
-	return c <= 3*wm
+	return rcells <= 3
 }
 
 // the smaller of the two east-west edge lengths of the footprint, metres
@@ -311,6 +328,45 @@ func oracles(r *run.Runner) {
 			return w.WithErr(w.L(w.I(H), w.I(V)), err)
 		})
 	}
+	// size estimates for the dispatch entry's own check of a refusal
+	r.Oracles["dom"] = func(a []w.Val) w.Val {
+		if !shapesOK(a, "ppiif") || isNil(a[0]) || isNil(a[1]) {
+			return w.Panic{}
+		}
+		lon1, lat1, alt1 := pointFields(a[0])
+		lon2, lat2, alt2 := pointFields(a[1])
+		span, rcells, shifts := estimates(lon1, lat1, alt1, lon2, lat2, alt2, w.AsInt(a[2]), w.AsInt(a[3]), w.AsFlt(a[4]))
+		return w.L(w.F(span), w.F(rcells), w.F(shifts))
+	}
+	r.Oracles["fitdom"] = func(a []w.Val) w.Val {
+		if !shapesOK(a, "sf") {
+			return w.Panic{}
+		}
+		f, ok := parseID(w.AsStr(a[0]))
+		if !ok || f[0] < 0 || f[0] > 35 {
+			return w.Panic{}
+		}
+		return w.L(w.F(w.AsFlt(a[1]) / ownWidth(f[0], f[1], f[2])))
+	}
+	// closest_go between the segment and each voxel, a fresh Measure per voxel (vdist.go)
+	r.Oracles["gjk"] = func(a []w.Val) w.Val {
+		if len(a) != 3 || !shapesOK(a[:2], "pp") || isNil(a[0]) || isNil(a[1]) {
+			return w.Panic{}
+		}
+		return limited(func() w.Val {
+			lon1, lat1, _ := pointFields(a[0])
+			lon2, lat2, _ := pointFields(a[1])
+			out := w.List{}
+			for _, id := range w.AsStrs(a[2]) {
+				d, ok := segDistFresh(lon1, lat1, lon2, lat2, id)
+				if !ok {
+					return w.Panic{}
+				}
+				out = append(out, w.F(d))
+			}
+			return out
+		})
+	}
 	// the distance the fit measures between a voxel and a probed voxel (vdist.go): [id; probed] -> distance
 	r.Oracles["vdist"] = func(a []w.Val) w.Val {
 		if !shapesOK(a, "ss") {
@@ -421,8 +477,10 @@ func genRadiusUnits(g *Gen, h int64) (float64, string) {
 		return 1.03 + 0.35*g.R.Float64(), "r=1..1.41cells"
 	case k < 73:
 		return 1.45 + 0.5*g.R.Float64(), "r=1.41..2cells"
-	case k < 85:
+	case k < 81:
 		return 2.05 + 0.4*g.R.Float64(), "r=2..2.5cells"
+	case k < 85:
+		return 2.5 + 0.45*g.R.Float64(), "r=2.5..3cells"
 	case k < 90:
 		return g.PickF(1, 2, 0.5, 1.5) * (1 + (g.R.Float64()-0.5)*1e-9), "r=cell-multiple"
 	case k < 95:
@@ -521,7 +579,16 @@ func genCorr(g *Gen) (corr, bool) {
 		} else {
 			b = [3]float64{lon, lat + sgn(g)*span*cl*math.Cos(lat*math.Pi/180), alt}
 		}
-	case k < 52:
+	case k < 50:
+		// steep or vertical: (almost) one footprint, many altitude cells
+		kind = "steep"
+		n := 3 + g.R.Float64()*g.PickF(10, 30, 60)
+		if units > 1.41 {
+			n = 3 + g.R.Float64()*12
+		}
+		a = [3]float64{lon, lat, alt}
+		b = [3]float64{lon + (g.R.Float64()*2-1)*cl*g.PickF(0, 0.2, 1), lat + (g.R.Float64()*2-1)*cl*math.Cos(lat*math.Pi/180)*g.PickF(0, 0.2, 1), alt + sgn(g)*n*ca}
+	case k < 54:
 		kind = "single-voxel"
 		q := g.PickF(0.01, 0.1, 0.3)
 		a = [3]float64{lon, lat, alt}
@@ -641,24 +708,40 @@ func mustCorr(g *Gen) corr {
 	}
 }
 
-// the same zooms and radius at clearly different latitudes: radius between 1.2 and 1.9 cell widths of the low latitude is more than
-// 2.1 cell widths at the high one, so the layer counts differ
+// the same zooms and radius at clearly different latitudes: the radius is 2.2..2.9 cell widths at the high latitude (3 layers) and
+// therefore 0.55..1.55 widths at the low one (1 or 2 layers); both calls are inside the bounded quantifier
 func genLatPair(g *Gen) (north, south corr, r2 float64) {
-	h := 15 + g.Int63n(9)
-	v := g.Zoom()
-	latHi := sgn(g) * (58 + g.R.Float64()*17)
-	latLo := (g.R.Float64()*2 - 1) * 8
-	r := (1.2 + 0.7*g.R.Float64()) * cellWidthM(h, latLo)
-	mk := func(lat float64) corr {
+	for {
+		h := 15 + g.Int63n(9)
+		v := g.Zoom()
+		latHi := sgn(g) * (58 + g.R.Float64()*17)
+		latLo := (g.R.Float64()*2 - 1) * 8
 		cl := cellLon(h)
-		lon := g.R.Float64()*358 - 179
-		alt := (g.R.Float64()*2 - 1) * 500
-		c := corr{h: h, v: v, r: r}
-		c.p1, _ = stored(lon, lat, alt)
-		c.p2, _ = stored(lon+(g.R.Float64()*2-1)*2*cl, lat+(g.R.Float64()*2-1)*2*cl*math.Cos(lat*math.Pi/180), alt)
-		return c
+		ok := true
+		var r float64
+		mk := func(lat float64) corr {
+			lon := g.R.Float64()*358 - 179
+			alt := (g.R.Float64()*2 - 1) * 500
+			c := corr{h: h, v: v}
+			var o1, o2 bool
+			c.p1, o1 = stored(lon, lat, alt)
+			c.p2, o2 = stored(lon+(g.R.Float64()*2-1)*2*cl, lat+(g.R.Float64()*2-1)*2*cl*math.Cos(lat*math.Pi/180), alt)
+			ok = ok && o1 && o2
+			return c
+		}
+		n, s := mk(latHi), mk(latLo)
+		if !ok {
+			continue
+		}
+		_, la1, _ := pointFields(n.p1)
+		_, la2, _ := pointFields(n.p2)
+		r = (2.2 + 0.7*g.R.Float64()) * cellWidthM(h, math.Max(math.Abs(la1), math.Abs(la2)))
+		n.r, s.r = r, r
+		r2 = r * (0.3 + 0.2*g.R.Float64())
+		if inDomain(n.p1, n.p2, h, v, r) && inDomain(s.p1, s.p2, h, v, r) && inDomain(s.p1, s.p2, h, v, r2) {
+			return n, s, r2
+		}
 	}
-	return mk(latHi), mk(latLo), r * (0.3 + 0.2*g.R.Float64())
 }
 
 func seqArgs(cs []corr) []w.Val {
@@ -670,6 +753,19 @@ func seqArgs(cs []corr) []w.Val {
 }
 
 func genSequence(g *Gen) ([]corr, string) {
+	for {
+		cs, kind := genSequence1(g)
+		ok := true
+		for _, c := range cs {
+			ok = ok && inDomain(c.p1, c.p2, c.h, c.v, c.r)
+		}
+		if ok {
+			return cs, kind
+		}
+	}
+}
+
+func genSequence1(g *Gen) ([]corr, string) {
 	switch g.Intn(6) {
 	case 0, 1: // north(r) -> low(r') -> low(r) -> north(r)   (and the mirror image)
 		n, s, r2 := genLatPair(g)
@@ -683,6 +779,13 @@ func genSequence(g *Gen) ([]corr, string) {
 		return []corr{s, n, s2, n, s}, "lat-change"
 	case 2: // identical call twice, then the other mode
 		c := mustCorr(g)
+		if g.Chance(0.5) { // along a parallel, measured: the state of the reused Measure matters most here
+			for try := 0; try < 200 && !strings.Contains(strings.Join(c.tags, " "), "axis-parallel"); try++ {
+				c = mustCorr(g)
+			}
+			c.skip = false
+			return []corr{c, c, c, c}, "identical-measured"
+		}
 		d := c
 		d.skip = !c.skip
 		return []corr{c, c, d, c}, "identical+mode"
@@ -784,6 +887,19 @@ func genFit(g *Gen) (fitc, []string, bool) {
 }
 
 func genFitSequence(g *Gen) ([]fitc, string) {
+	for {
+		fs, kind := genFitSequence1(g)
+		ok := true
+		for _, f := range fs {
+			ok = ok && fitInDomain(f.id, f.c)
+		}
+		if ok {
+			return fs, kind
+		}
+	}
+}
+
+func genFitSequence1(g *Gen) ([]fitc, string) {
 	switch g.Intn(4) {
 	case 0, 1: // same zooms and clearance, rows at clearly different latitudes
 		h := 12 + g.Int63n(14)
@@ -792,7 +908,7 @@ func genFitSequence(g *Gen) ([]fitc, string) {
 		latHi, latLo := sgn(g)*(58+g.R.Float64()*20), (g.R.Float64()*2-1)*8
 		yh, yl := int64(rowOf(latHi, h)), int64(rowOf(latLo, h))
 		xh, xl := g.Int63n(n), g.Int63n(n)
-		c := (1.2 + 0.7*g.R.Float64()) * ownWidth(h, xl, yl)
+		c := (2.2 + 0.7*g.R.Float64()) * ownWidth(h, xh, yh) // 3 layers at the high latitude, 1 or 2 at the low one
 		hi := fitc{EID(h, xh, yh, v, g.VIndex(v)), c}
 		lo := fitc{EID(h, xl, yl, v, g.VIndex(v)), c}
 		lo2 := lo
@@ -825,9 +941,7 @@ func genFitSequence(g *Gen) ([]fitc, string) {
 func genFitLoop(g *Gen) (fitc, []string, bool) {
 	for try := 0; try < 50; try++ {
 		h := genH(g)
-		if h < 6 {
-			h = 6 + g.Int63n(25)
-		}
+		coarse := h < 6
 		n := int64(1) << uint(h)
 		lat := g.R.Float64()*168 - 84
 		ltag := "lat=mid"
@@ -894,6 +1008,9 @@ func genFitLoop(g *Gen) (fitc, []string, bool) {
 		if k == 1 && g.Chance(0.5) {
 			c, ctag = g.PickF(0, math.Copysign(0, -1), 5e-324, 1e-12, ownWidth(h, x, y)*0.5), "c=0-or-tiny"
 		}
+		if coarse { // at most half a width of the shorter edge: the first probes only
+			c, ctag = ownWidth(h, x, y)*g.PickF(0, 1e-9, 0.1, 0.3, 0.49)*g.R.Float64(), "c<0.5cell"
+		}
 		if math.IsNaN(c) || c < 0 || !fitInDomain(id, c) {
 			continue
 		}
@@ -953,6 +1070,23 @@ func init() {
 			r.Run(run.Case{Prop: "C14", Fn: fnCorr, Tags: []string{"fixed-witness", "gjk-witness"},
 				Args: []w.Val{p1, p2, w.I(23), w.I(20), w.F(2.5), w.B(false)}})
 		}
+		// the recorded witness of finding class measure_reuse_axis_parallel_segment: 23/3453970/2468879/20/-2 is kept although
+		// closest_go asked with a fresh Measure reports 4.57 m (radius 3.1 m); the reused measure1 stops too early
+		if p1, ok := stored(-31.7717, 59.28794, 10); ok {
+			p2, _ := stored(-31.771634, 59.28794, 10)
+			r.Run(run.Case{Prop: "C14", Fn: fnCorr, Tags: []string{"fixed-witness", "reuse-witness"},
+				Args: []w.Val{p1, p2, w.I(23), w.I(20), w.F(3.1), w.B(false)}})
+		}
+		// identical measured-mode calls return identical sets (fix 915e48e): the two witnesses above, six times each, back to back
+		// (with the candidates measured in map order the first one gave 32 different results in 300 calls)
+		for _, q := range [][5]float64{{-109.20797, 60.59197, -109.207915, 60.59197, 2.5}, {-31.7717, 59.28794, -31.771634, 59.28794, 3.1}} {
+			p1, ok1 := stored(q[0], q[1], 10)
+			p2, ok2 := stored(q[2], q[3], 10)
+			if ok1 && ok2 {
+				c := corr{p1: p1, p2: p2, h: 23, v: 20, r: q[4], skip: false}
+				r.Run(run.Case{Prop: "C14", Fn: fnSeq, Tags: []string{"fixed-witness", "seq=identical-measured"}, Args: seqArgs([]corr{c, c, c, c, c, c})})
+			}
+		}
 		// a negative radius is an error however small it is; -0 is not negative (accepted like 0)
 		if p1, ok := stored(139.788452, 35.670930, 10); ok {
 			p2, _ := stored(139.788952, 35.671230, 12)
@@ -969,20 +1103,20 @@ func init() {
 		r.Run(run.Case{Prop: "C14", Fn: fnFit, Tags: []string{"fixed-witness"}, Trivial: true, Args: fitArgs(fitc{"a/0/0/0/0", 0})})
 		for i := 0; i < n && !r.Stopped(); i++ {
 			switch k := g.Intn(100); {
-			case k < 40:
+			case k < 34:
 				c := mustCorr(g)
 				if g.Chance(0.07) {
 					c = spoil(g, c)
 				}
 				vd := r.Run(run.Case{Prop: "C14", Fn: fnCorr, Tags: append([]string{fnCorr, c.mode}, c.tags...), Trivial: c.triv, Args: c.args()})
 				sizeTag(r, vd)
-			case k < 54:
+			case k < 56:
 				c := mustCorr(g)
 				if g.Chance(0.05) {
 					c = spoil(g, c)
 				}
 				r.Run(run.Case{Prop: "C14", Fn: fnPair, Tags: append([]string{fnPair}, c.tags...), Trivial: c.triv, Args: c.args()[:5]})
-			case k < 65:
+			case k < 67:
 				cs, kind := genSequence(g)
 				r.Run(run.Case{Prop: "C14", Fn: fnSeq, Tags: []string{fnSeq, "seq=" + kind, hTag(cs[0].h)}, Args: seqArgs(cs)})
 			case k < 82:
